@@ -348,4 +348,80 @@ theorem delIn_spec [DecidableEq O] [Bounded O] (minC maxC : Nat) (hm : 1 ≤ min
     rw [hstep, hiff]
     exact ⟨ihn1, ihn2⟩
 
+/-! ### re-insertion of orphaned subtrees, root collapse -/
+
+theorem reinsertAll_spec [Bounded O] {H : Heur} (hH : H.InRange) :
+    ∀ (del : List (Node O)) (t : Tree O), 2 ≤ t.maxC → wfNode t.maxC t.height t.root = true →
+      (∀ d ∈ del, ∃ hd, 1 ≤ hd ∧ hd < t.height ∧ wfNode t.maxC hd d = true ∧ d.entries ≠ []) →
+      (del ≠ [] → t.root.entries ≠ []) →
+      ∃ t', reinsertAll H t del = .ok t' ∧ wfNode t'.maxC t'.height t'.root = true ∧
+        t'.maxC = t.maxC ∧ t'.minC = t.minC ∧ t'.size = t.size ∧ t.height ≤ t'.height ∧
+        t'.abs.Perm (t.abs ++ del.flatMap Node.objs) ∧
+        (2 ≤ t'.root.entries.length ∨
+          (t'.root.leaf = t.root.leaf ∧ t.root.entries.length ≤ t'.root.entries.length))
+  | [], t, hM, hw, _, _ => ⟨t, rfl, hw, rfl, rfl, rfl, Nat.le_refl _, by simp, Or.inr ⟨rfl, Nat.le_refl _⟩⟩
+  | d :: ds, t, hM, hw, hd, hne => by
+    obtain ⟨hd', a1, a2, a3, a4⟩ := hd d List.mem_cons_self
+    have hlev : d.level = hd' := (wfNode_level a3).1
+    have he : wfEntry t.maxC (d.level + 1) (Entry.child d.bbox d) := by
+      rw [hlev]
+      exact ⟨by omega, by simpa using a3, (isEnvelope_iff _ _).mpr (wfNode.bbox_env a3 a4)⟩
+    obtain ⟨t1, h1, h2, h3, h4, h5, h6, h7, h8, h9⟩ :=
+      insertEntry_spec hH t hM hw (d.level + 1) (Entry.child d.bbox d) (by omega) (by omega) he
+        (fun _ => hne (by simp))
+    obtain ⟨t2, g1, g2, g3, g4, g5, g6, g7, g8⟩ := reinsertAll_spec hH ds t1 (by omega) h2
+      (fun x hx => by
+        obtain ⟨hx', b1, b2, b3, b4⟩ := hd x (List.mem_cons_of_mem _ hx)
+        exact ⟨hx', b1, by omega, by rw [h3]; exact b3, b4⟩)
+      (fun _ => h7)
+    refine ⟨t2, ?_, g2, by omega, by omega, by omega, by omega, ?_, ?_⟩
+    · simp only [reinsertAll, h1, bind, Except.bind]; exact g1
+    · refine g7.trans ?_
+      simp only [List.flatMap_cons, Entry.objs] at h8 ⊢
+      refine (List.Perm.append_right _ h8).trans ?_
+      simp [List.append_assoc]
+    · rcases g8 with g | ⟨g, g'⟩
+      · exact Or.inl g
+      · rcases h9 with k | ⟨k, k'⟩
+        · exact Or.inl (by omega)
+        · exact Or.inr ⟨by rw [g, k], by omega⟩
+
+theorem collapse_leaf (v : Nat) (es : List (Entry O)) (h : Nat) :
+    collapse (.mk true v es) h = .ok (.mk true v es, h) := by
+  rw [collapse.eq_def]; rfl
+
+theorem collapse_spec [Bounded O] (maxC : Nat) : ∀ (n : Node O) (h : Nat), wfNode maxC h n = true →
+    (n.leaf = false → n.entries ≠ []) →
+    ∃ n' h', collapse n h = .ok (n', h') ∧ wfNode maxC h' n' = true ∧ n'.objs = n.objs ∧
+      (n'.leaf = false → 2 ≤ n'.entries.length) := by
+  intro n
+  induction n using Node.induct with
+  | h l v es ih =>
+    intro h hw hne
+    have hw' := (wfNode_mk ..).mp hw
+    obtain ⟨hv, hl, h1, hlen, hes⟩ := hw'
+    cases l with
+    | true => exact ⟨.mk true v es, h, collapse_leaf v es h, hw, rfl, by simp [Node.leaf]⟩
+    | false =>
+      have hne' : es ≠ [] := by simpa [Node.leaf, Node.entries] using hne
+      match es, hne', hes, ih, hw with
+      | [Entry.child b c], _, hes, ih, hw =>
+        obtain ⟨hh, hwc, henv⟩ := hes _ List.mem_cons_self
+        have hcne : c.leaf = false → c.entries ≠ [] := by
+          intro _
+          have := ((isEnvelope_iff _ _).mp henv).ne
+          obtain ⟨l', v', es'⟩ := c
+          intro h0; simp only [Node.entries] at h0; subst h0
+          simp [Node.objs_mk] at this
+        obtain ⟨n', h', k1, k2, k3, k4⟩ := ih b c List.mem_cons_self (h - 1) hwc hcne
+        refine ⟨n', h', ?_, k2, ?_, k4⟩
+        · simp only [collapse]; exact k1
+        · rw [k3]; simp [Node.objs_mk, Entry.objs]
+      | [Entry.obj b o], _, hes, ih, hw =>
+        have := (hes _ List.mem_cons_self).1
+        exact absurd (hl.mpr this) (by simp)
+      | e1 :: e2 :: rest, _, hes, ih, hw =>
+        refine ⟨_, _, ?_, hw, rfl, by simp [Node.entries]⟩
+        cases e1 <;> first | rfl | (rw [collapse]; rfl) | (unfold collapse; rfl)
+
 end GeomV.C11
